@@ -156,7 +156,7 @@ def rule_pumps(rng, rule_index, rx):
             continue
         for _ in range(4):
             i = rng.randrange(len(s))
-            j = min(len(s), i + rng.randint(1, 5))
+            j = min(len(s), i + rng.choice([1, 2, 3, 4, 5, 8, 12, 16]))
             unit = s[i:j]
             tail = s[j:]
             x = rng.random()
@@ -190,7 +190,13 @@ def generic_pumps(shard, nshards):
                     k += 1
 
 
-KEYWORD_PUMPS = [('', 'LEFT ', 'JOIN'), ('', 'END ', 'x'), ('NOT', ' ', 'x'),
+KEYWORD_PUMPS = [('select * from a ', 'left outer ', 'x'),
+                 ('', 'left outer ', 'joi'), ('', 'natural cross ', 'x'),
+                 ('group ', '/**/', ' x'), ('order ', '/* c */ ', 'b'),
+                 ('primary', ' ', 'x'), ('union', ' ', 'x'),
+                 ('double', ' \t', 'x'), ('handler', '  ', 'x'),
+                 ('create', ' or ', 'x'), ('desc', ' nulls ', 'x'),
+                 ('', 'LEFT ', 'JOIN'), ('', 'END ', 'x'), ('NOT', ' ', 'x'),
                  ('ASC', ' NULLS', ' '), ('GROUP', ' \n', 'x'),
                  ('CREATE', ' OR', ' x'), ("AT TIME ZONE '", 'a', ''),
                  ('LATERAL', ' VIEW ', 'x'), ('GO', ' 1', 'x'),
